@@ -612,13 +612,38 @@ def job_torn(spec, res):
 
     FileStorage.write = w
     TE = O._TE()
+    import builtins
+    import traph.traph as TT
+
+    def logged_open(path, mode="r", *a, **k):
+        # a truncating open (index creation, clear()) is a write event of its own
+        if "w" in mode and os.path.basename(str(path)) in ("lru_trie.dat", "link_store.dat"):
+            LOG.append((os.path.basename(str(path)), "TRUNC", b""))
+        return builtins.open(path, mode, *a, **k)
+
+    with_clear = seed % 4 == 1
+    fp_all, fl_all = set(), set()
     try:
+        TT.open = logged_open
         d = tempfile.mkdtemp(prefix="vb_")
         kw = dict(default=RX["domain"] if spec.get("rules") else NOMATCH)
         t = open_traph(d, **kw)
         hist = []
         for i in range(spec.get("nops", 4)):
+            fp_all |= set(l for n, l in t.pages_iter())
+            fl_all |= set(t.links_iter())
             op = r.choice(["page", "links", "batch", "create", "pages"])
+            if with_clear:
+                nops_ = spec.get("nops", 4)
+                if i == 0:
+                    op = "links"  # something for the clear request to wipe
+                elif i == max(1, nops_ - 2):
+                    op = "clear"
+            if op == "clear":
+                x = ["clear"]
+                t.clear(default_webentity_creation_rule=kw["default"], webentity_creation_rules={})
+                hist.append(x)
+                continue
             if op == "page":
                 x = ["page", rand_lru(r, (1, 3), alpha), r.random() < 0.5]
                 t.add_page(x[1], crawled=x[2])
@@ -638,12 +663,18 @@ def job_torn(spec, res):
                 except TE:
                     pass
             hist.append(x)
-        fp = set(l for n, l in t.pages_iter())
-        fl = set(t.links_iter())
+        # what the completed requests reported at any request boundary (with a clear()
+        # in the history the reference is the union over the boundaries)
+        fp = fp_all | set(l for n, l in t.pages_iter())
+        fl = fl_all | set(t.links_iter())
         t.close()
         shutil.rmtree(d, ignore_errors=True)
     finally:
         FileStorage.write = orig
+        try:
+            del TT.open
+        except Exception:
+            pass
     log = LOG[:]
     res["sample"] = {"history": enc(hist), "writes": len(log)}
     sizes = {"lru_trie.dat": 128, "link_store.dat": 16}
@@ -651,7 +682,10 @@ def job_torn(spec, res):
     # byte-granular cuts of appends: the k-th write lands only partially
     for k in range(len(log)):
         f, b, data = log[k]
-        prior = sum(1 for (f2, b2, _) in log[:k] if f2 == f and b2 >= b)
+        if b == "TRUNC":
+            continue
+        last_trunc = max([i_ for i_ in range(k) if log[i_][0] == f and log[i_][1] == "TRUNC"] + [-1])
+        prior = sum(1 for (f2, b2, _) in log[last_trunc + 1 : k] if f2 == f and b2 >= b)
         if prior == 0:  # an append (no earlier write at or after this offset)
             for nb in sorted(set([1, len(data) // 2, len(data) - 1])):
                 cuts.append((k, nb))
@@ -659,6 +693,9 @@ def job_torn(spec, res):
         d = tempfile.mkdtemp(prefix="vb_")
         files = {"lru_trie.dat": bytearray(), "link_store.dat": bytearray()}
         for f, b, data in log[:k]:
+            if b == "TRUNC":
+                files[f] = bytearray()
+                continue
             a = files[f]
             a[b : b + len(data)] = data
         partial = False
